@@ -25,6 +25,7 @@ CLI
 import bisect
 import io
 import json
+import math
 import struct
 import sys
 import zlib
@@ -467,8 +468,10 @@ class _Ctx:
     """Parses each part of the file once, remembering a fatal error per part so
     that every check family can report 'not checkable' instead of crashing."""
 
-    def __init__(self, data, sorted_chrom_keys, strict_ips):
+    def __init__(self, data, sorted_chrom_keys, strict_ips, summary_tol=1e-6, zoom_tol=1e-5):
         self.data = bytes(data)
+        self.summary_tol = summary_tol
+        self.zoom_tol = zoom_tol
         self.sorted_chrom_keys = sorted_chrom_keys
         self.strict_ips = strict_ips
         self.h, self.r = _parse_header(self.data)      # may raise
@@ -591,7 +594,6 @@ def _stats(segs):
             mn = v
         if mx is None or v > mx:
             mx = v
-    import math
     return (bases, mn, mx, math.fsum(terms), math.fsum(sq),
             math.fsum(abs(t) for t in terms), math.fsum(sq))
 
@@ -1071,7 +1073,7 @@ def _check_summary(cx):
         bases, mn, mx, sm, sq, sabs, _ = _total_stats(cx.segments())
     except BBIFormatError as x:
         return ["total summary not checkable: %s" % x]
-    tol = 1e-6
+    tol = cx.summary_tol
     if s["bases_covered"] != bases:
         P.append("total summary basesCovered %d, data cover %d bases" % (s["bases_covered"], bases))
     if bases:
@@ -1107,9 +1109,8 @@ def _check_zooms(cx):
     P = []
     try:
         segs = cx.segments()
-        seg_err = None
     except BBIFormatError as x:
-        segs, seg_err = None, str(x)
+        segs = None
         P.append("zoom statistics not checkable: %s" % x)
     starts = {}
     if segs is not None:
@@ -1120,7 +1121,7 @@ def _check_zooms(cx):
         sizes = cx.chrom_sizes()
     except BBIFormatError:
         sizes = None
-    tol = 1e-5
+    tol = cx.zoom_tol
     for zi, zh in enumerate(cx.h["zoom_headers"]):
         nm = "zoom %d (reduction %d)" % (zi, zh["reduction"])
         try:
@@ -1223,7 +1224,8 @@ _FAMILY_FUNCS = dict(header=_check_header, chromtree=_check_chromtree, index=_ch
                      fields=_check_fields)
 
 
-def check(data, only=None, *, sorted_chrom_keys=True, strict_items_per_slot=None):
+def check(data, only=None, *, sorted_chrom_keys=True, strict_items_per_slot=None,
+          summary_tol=1e-6, zoom_tol=1e-5):
     """Well-formedness judgement.  Returns human-readable problems, each
     prefixed by its check family; an empty list means well formed.
 
@@ -1231,7 +1233,9 @@ def check(data, only=None, *, sorted_chrom_keys=True, strict_items_per_slot=None
     sorted_chrom_keys: require byte-wise increasing keys in the chromosome tree.
     strict_items_per_slot: None = enforce the itemsPerSlot bound on blocks
     unless the index header says 1 (kent's convention, see _ips_bound);
-    True = always; False = never."""
+    True = always; False = never.
+    summary_tol / zoom_tol: relative tolerances for the total summary (f64) and
+    the zoom records (f32), measured against max(|expected|, sum of |terms|)."""
     fams = list(FAMILIES) if only is None else \
         [f for f in FAMILIES + EXTRA_FAMILIES if f in set(only)]
     if only is not None:
@@ -1239,7 +1243,7 @@ def check(data, only=None, *, sorted_chrom_keys=True, strict_items_per_slot=None
         if unknown:
             raise ValueError("unknown check families: %s" % sorted(unknown))
     try:
-        cx = _Ctx(data, sorted_chrom_keys, strict_items_per_slot)
+        cx = _Ctx(data, sorted_chrom_keys, strict_items_per_slot, summary_tol, zoom_tol)
     except BBIFormatError as x:
         return ["[header] %s" % x]
     out = []
@@ -1925,4 +1929,7 @@ def main(argv):
 
 
 if __name__ == "__main__":
-    sys.exit(main(sys.argv))
+    try:
+        sys.exit(main(sys.argv))
+    except BrokenPipeError:
+        sys.exit(1)
